@@ -123,7 +123,8 @@ Universe == CASE Family = "d1ret"  -> RetSigs(RustD1)
               [] Family = "allret" -> RetSigs(RustD1 \cup RustD2 \cup RustD3)
               [] Family = "allpar" -> ParSigs(RustD1 \cup RustD2)
 Classes == IF Family = "ladder" THEN NameClasses
-           ELSE IF Family = "mod" THEN {"declared", "unknown"} ELSE {"declared"}
+           ELSE IF Family = "mod" THEN {"declared", "unknown"}
+           ELSE IF Family \in {"d1ret", "allret"} THEN {"declared", "nonfn"} ELSE {"declared"}
 
 ASSUME PrintT(<<"UNIVERSE", ToJson(Universe)>>)
 
